@@ -70,3 +70,52 @@ def register(reg):
             "decreases": "len(buf) - read + (0 if self._done else 1)",
         }},
     )
+
+    # ---- the response writer: chunked framing decision and exact body bytes -------------------------
+    WF = reg.model("WFile", fields={"out": "bytes"})
+    reg.contract("model:WFile.write", prop=P, trusted=True, param_names=["self", "data"], modifies=["self.out"],
+                 ensures=["self.out == old(self.out) + data"])
+    reg.contract("model:WFile.flush", prop=P, trusted=True, param_names=["self"])
+    Hd = reg.model("Handler", fields={"wfile": WF, "protocol_version": "str", "hdr": "List[Tuple[str, str]]", "g_code": "int"})
+    reg.contract("model:Handler.send_response", prop=P, trusted=True, param_names=["self", "code", "message"],
+                 note="http.server: status line into the header buffer")
+    reg.contract("model:Handler.send_header", prop=P, trusted=True, param_names=["self", "keyword", "value"],
+                 modifies=["self.hdr"],
+                 ensures=["len(self.hdr) == len(old(self.hdr)) + 1 and self.hdr[len(self.hdr) - 1][0] == keyword "
+                          "and self.hdr[len(self.hdr) - 1][1] == value",
+                          "forall(0, len(old(self.hdr)), lambda i: self.hdr[i][0] == old(self.hdr)[i][0] and "
+                          "       self.hdr[i][1] == old(self.hdr)[i][1])"],
+                 note="http.server: one header line into the header buffer (recorded in the ghost list hdr)")
+    reg.contract("model:Handler.end_headers", prop=P, trusted=True, param_names=["self"])
+    reg.spec("frame(data, chunked)",
+             "(hex(len(data))[2:].encode() + b'\\r\\n' + data + b'\\r\\n') if chunked else data")
+    reg.spec("may_chunk(headers, method, code, proto)",
+             "not exists(0, len(headers), lambda i: headers[i][0].lower() == 'content-length') and method != 'HEAD' "
+             "and not (100 <= code and code < 200) and code != 204 and code != 304 and proto >= 'HTTP/1.1'")
+    reg.contract(
+        "werkzeug/serving.py:WSGIRequestHandler.run_wsgi.write", prop=P,
+        params={"data": "bytes"},
+        closure={"self": Hd, "environ": {"REQUEST_METHOD": "str"}, "status_set": "Optional[str]",
+                 "headers_set": "Optional[List[Tuple[str, str]]]", "status_sent": "Optional[str]",
+                 "headers_sent": "Optional[List[Tuple[str, str]]]", "chunk_response": "bool"},
+        assumes=["implies(status_sent is None, not chunk_response)"],
+        ghost_after={"code = int(code_str)": ["self.g_code = code"]},
+        ensures=[
+            # body bytes: verbatim, or one well-formed chunk; an empty piece writes nothing (it would read as the terminator)
+            "self.wfile.out == old(self.wfile.out) + (frame(data, chunk_response) if len(data) > 0 else b'')",
+            # once decided the framing does not change
+            "implies(old(status_sent) is not None, chunk_response == old(chunk_response))",
+            "status_sent is not None",
+            # chunked only without Content-Length, not for HEAD / 1xx / 204 / 304, and only on HTTP/1.1
+            "implies(old(status_sent) is None and chunk_response, environ['REQUEST_METHOD'] != 'HEAD' and "
+            "  self.protocol_version >= 'HTTP/1.1' and not (100 <= self.g_code and self.g_code < 200) and "
+            "  self.g_code != 204 and self.g_code != 304 and "
+            "  not exists(0, len(headers_set), lambda i: headers_set[i][0].lower() == 'content-length'))",
+            # and then it is announced
+            "implies(old(status_sent) is None and chunk_response, len(self.hdr) >= 2 and "
+            "  self.hdr[len(self.hdr) - 2][0] == 'Transfer-Encoding' and self.hdr[len(self.hdr) - 2][1] == 'chunked')",
+        ],
+        raises={"AssertionError": "old(status_set) is None or old(headers_set) is None", "ValueError": "old(status_sent) is None"},
+        loops={0: {"inv": ["forall_s(lambda x: (x in header_keys) == exists(0, _i, lambda j: headers_sent[j][0].lower() == x))"],
+                   "modifies": ["self.hdr"], "types": {"header_keys": "Set[str]"}}},
+    )
